@@ -305,7 +305,7 @@ class Interp:
                 else:
                     if any(isinstance(x, ast.Starred) for x in e.elts):
                         v = TOP
-                    elif isinstance(e, ast.Tuple) and e.elts:
+                    elif (isinstance(e, ast.Tuple) and e.elts) or (isinstance(e, ast.List) and getattr(d, "exact_lists", False)):
                         v = ("tuple",) + tuple(r.value)
                     else:
                         v = EMPTY if not e.elts else NONEMPTY
@@ -787,6 +787,11 @@ class Interp:
                     if r is not None:
                         return r
                 return st.set(key, value)
+            hook = getattr(self.domain, "store_attr_on", None)
+            if hook is not None and isinstance(target.value, ast.Name) and st.has(fr.local(target.value.id)):
+                r = hook(st.get(fr.local(target.value.id)), target.attr, value, st, fr)
+                if r is not None:
+                    return r
             return st
         if isinstance(target, (ast.Tuple, ast.List)):
             for i, t in enumerate(target.elts):
